@@ -123,17 +123,25 @@ HARNESSES = [
          encodes=["tinylfu_cached::cache::cached::CacheD::{put_or_update,put_with_weight}", "Store::{update,is_present}"]),
     dict(name="c04_delete_while_reader_holds_guard", tier="off", file="cached.rs", props=["C04", "C18"], timeout=900,
          encodes=["tinylfu_cached::cache::cached::CacheD::{get_ref,delete,get,total_weight_used}", "Store::mark_deleted"]),
-    dict(name="c08_put_or_update_step_q0", tier="off", group="c08_put_or_update_step", file="cached.rs", props=["C08", "C10", "C18"], timeout=1500,
+    dict(name="c08_put_or_update_step_q0_k0", tier="thorough", group="c08_put_or_update_step", file="cached.rs", props=["C08", "C10", "C18"], timeout=1500,
          encodes=["tinylfu_cached::cache::cached::CacheD::{put_or_update,get,key_description}", "PutOrUpdateRequest::updated_weight", "Store::update", "StoredValue::update", "UpdateResponse::type_of_expiry_update", "TTLTicker::{put,update,delete}", "AdmissionPolicy::{weight_of,update}", "CacheWeight::update", "CommandExecutor::{send,spin (worker closure: UpdateWeight arm)}"]),
-    dict(name="c08_put_or_update_step_q1", tier="off", group="c08_put_or_update_step", file="cached.rs", props=["C08"], timeout=1500,
+    dict(name="c08_put_or_update_step_q0_k1", tier="thorough", group="c08_put_or_update_step", file="cached.rs", props=["C08", "C10", "C18"], timeout=1500,
+         encodes=["tinylfu_cached::cache::cached::CacheD::{put_or_update,get,key_description}", "PutOrUpdateRequest::updated_weight", "Store::update", "StoredValue::update", "UpdateResponse::type_of_expiry_update", "TTLTicker::{put,update,delete}", "AdmissionPolicy::{weight_of,update}", "CacheWeight::update", "CommandExecutor::{send,spin (worker closure: UpdateWeight arm)}"]),
+    dict(name="c08_put_or_update_step_q0_k2", tier="thorough", group="c08_put_or_update_step", file="cached.rs", props=["C08", "C10", "C18"], timeout=1500,
+         encodes=["tinylfu_cached::cache::cached::CacheD::{put_or_update,get,key_description}", "PutOrUpdateRequest::updated_weight", "Store::update", "StoredValue::update", "UpdateResponse::type_of_expiry_update", "TTLTicker::{put,update,delete}", "AdmissionPolicy::{weight_of,update}", "CacheWeight::update", "CommandExecutor::{send,spin (worker closure: UpdateWeight arm)}"]),
+    dict(name="c08_put_or_update_step_q1_k0", tier="thorough", group="c08_put_or_update_step", file="cached.rs", props=["C08"], timeout=1500,
+         encodes=["tinylfu_cached::cache::cached::CacheD::{put_or_update,get,key_description}", "PutOrUpdateRequest::updated_weight", "Store::update", "StoredValue::update", "UpdateResponse::type_of_expiry_update", "TTLTicker::{put,update,delete}", "AdmissionPolicy::{weight_of,update}", "CacheWeight::update", "CommandExecutor::{send,spin (worker closure: UpdateWeight arm)}"]),
+    dict(name="c08_put_or_update_step_q1_k1", tier="thorough", group="c08_put_or_update_step", file="cached.rs", props=["C08"], timeout=1500,
+         encodes=["tinylfu_cached::cache::cached::CacheD::{put_or_update,get,key_description}", "PutOrUpdateRequest::updated_weight", "Store::update", "StoredValue::update", "UpdateResponse::type_of_expiry_update", "TTLTicker::{put,update,delete}", "AdmissionPolicy::{weight_of,update}", "CacheWeight::update", "CommandExecutor::{send,spin (worker closure: UpdateWeight arm)}"]),
+    dict(name="c08_put_or_update_step_q1_k2", tier="thorough", group="c08_put_or_update_step", file="cached.rs", props=["C08"], timeout=1500,
          encodes=["tinylfu_cached::cache::cached::CacheD::{put_or_update,get,key_description}", "PutOrUpdateRequest::updated_weight", "Store::update", "StoredValue::update", "UpdateResponse::type_of_expiry_update", "TTLTicker::{put,update,delete}", "AdmissionPolicy::{weight_of,update}", "CacheWeight::update", "CommandExecutor::{send,spin (worker closure: UpdateWeight arm)}"]),
     dict(name="c08_put_or_update_step_q2", tier="quick", group="c08_put_or_update_step", file="cached.rs", props=["C08"], timeout=1500,
          encodes=["tinylfu_cached::cache::cached::CacheD::{put_or_update,get,key_description}", "PutOrUpdateRequest::updated_weight", "Store::update", "StoredValue::update", "UpdateResponse::type_of_expiry_update", "TTLTicker::{put,update,delete}", "AdmissionPolicy::{weight_of,update}", "CacheWeight::update", "CommandExecutor::{send,spin (worker closure: UpdateWeight arm)}"]),
     dict(name="c08_put_or_update_step_q3", tier="quick", group="c08_put_or_update_step", file="cached.rs", props=["C08"], timeout=1500,
          encodes=["tinylfu_cached::cache::cached::CacheD::{put_or_update,get,key_description}", "PutOrUpdateRequest::updated_weight", "Store::update", "StoredValue::update", "UpdateResponse::type_of_expiry_update", "TTLTicker::{put,update,delete}", "AdmissionPolicy::{weight_of,update}", "CacheWeight::update", "CommandExecutor::{send,spin (worker closure: UpdateWeight arm)}"]),
-    dict(name="c05_worker_put_step_q0", tier="quick", group="c05_worker_put_step", file="cached.rs", props=["C05"], timeout=1800,
+    dict(name="c05_worker_put_step_q0", kf_only=True, tier="quick", group="c05_worker_put_step", file="cached.rs", props=["C05"], timeout=1800,
          encodes=["tinylfu_cached::cache::command::command_executor::CommandExecutor::{spin (worker closure: Put, PutWithTTL arms),put,put_with_ttl,send}", "AdmissionPolicy::{maybe_add,create_space}", "Store::{put,put_with_ttl,delete (as eviction hook)}", "TTLTicker::put", "CommandAcknowledgementHandle::done"]),
-    dict(name="c05_worker_put_step_q1", tier="quick", group="c05_worker_put_step", file="cached.rs", props=["C05"], timeout=1800,
+    dict(name="c05_worker_put_step_q1", kf_only=True, tier="quick", group="c05_worker_put_step", file="cached.rs", props=["C05"], timeout=1800,
          encodes=["tinylfu_cached::cache::command::command_executor::CommandExecutor::{spin (worker closure: Put, PutWithTTL arms),put,put_with_ttl,send}", "AdmissionPolicy::{maybe_add,create_space}", "Store::{put,put_with_ttl,delete (as eviction hook)}", "TTLTicker::put", "CommandAcknowledgementHandle::done"]),
     dict(name="c05_worker_put_step_q2", tier="off", group="c05_worker_put_step", file="cached.rs", props=["C05", "C01", "C03", "C18"], timeout=1800,
          encodes=["tinylfu_cached::cache::command::command_executor::CommandExecutor::{spin (worker closure: Put, PutWithTTL arms),put,put_with_ttl,send}", "AdmissionPolicy::{maybe_add,create_space}", "Store::{put,put_with_ttl,delete (as eviction hook)}", "TTLTicker::put", "CommandAcknowledgementHandle::done"]),
@@ -163,6 +171,8 @@ HARNESSES = [
     dict(name="c08_updated_weight_kernel", tier="quick", file="put_or_update.rs", props=["C08"], timeout=120, encodes=["tinylfu_cached::cache::put_or_update::PutOrUpdateRequest::updated_weight"]),
     dict(name="c08_builder_builds_wellformed_requests", tier="quick", file="put_or_update.rs", props=["C08", "C17"], timeout=120, encodes=["tinylfu_cached::cache::put_or_update::PutOrUpdateRequestBuilder::{new,value,weight,time_to_live,remove_time_to_live,build}"]),
     # ---------------------------------------------------------------- bursts, shutdown, sweep end to end, consumer
+    dict(name="c11_put_then_delete_unawaited", file="cached.rs", props=["C11", "C18"], timeout=900,
+         encodes=["tinylfu_cached::cache::cached::CacheD::{put_with_weight,delete,get}", "CommandExecutor::{send,spin (worker closure)}"]),
     dict(name="c11_unawaited_burst_queue_of_1", tier="off", group="c11_unawaited_burst", file="cached.rs", props=["C11", "C18"], timeout=1200,
          encodes=["tinylfu_cached::cache::cached::CacheD::{put_with_weight,delete,get}", "CommandExecutor::{send,spin (worker closure)}", "crossbeam_channel (model): blocking send on a full queue"]),
     dict(name="c11_unawaited_burst_queue_of_2", tier="off", group="c11_unawaited_burst", file="cached.rs", props=["C11", "C18"], timeout=1200,
